@@ -62,5 +62,7 @@ def wodGate : Gate := mkGate .wod false [op_typeDiceWod, op_typeWodSetInit, op_t
 def fateGate : Gate := mkGate .fate false [op_typeDiceFate]
 def dcGate : Gate := mkGate .dc false [op_typeDiceDC, op_typeDCSetInit, op_typeDCSetPool, op_typeDCSetPoints]
 def stmtsGate : Gate := mkGate .stmts true [op_typeBlockPush, op_typePushFunction, op_typeReturn]
+/-- DisableNDice: the sides-left-out spelling `2d` compiles a default-sides expression -/
+def ndiceGate : Gate := mkGate .ndice true [op_typePushDefaultExpr]
 
 end DS.Props.C16
